@@ -72,7 +72,9 @@ class SimSock(env.ScriptSock):
         outcome = "accept" if self.net.dial is None else self.net.dial(self.net, self, address)
         self.net.log.append(("connect", self.idx, address, outcome))
         if outcome != "accept":
-            raise OSError(outcome, _errno.errorcode.get(outcome, "E?"))
+            e = OSError(outcome, _errno.errorcode.get(outcome, "E?"))
+            e.from_transport = True  # the transport's own error (checks that classify exceptions accept it as such)
+            raise e
         self.connected = True
         if self.net.peer_for is not None:
             self.peer = self.net.peer_for(self.net, self, address)
